@@ -98,6 +98,10 @@ def st_event(draw):
             tags.append([name, draw(st.sampled_from(VALS))])
     if tags and draw(st.integers(0, 4)) == 0:
         tags.append(list(tags[0]))  # duplicate tag
+    if draw(st.integers(0, 11)) == 0:
+        # a big event (contact list / relay list sized): hundreds of index entries in one write
+        n = draw(st.sampled_from([40, 300, 600]))
+        tags = tags + [["p", "%064x" % i] for i in range(n)]
     ts = draw(st.sampled_from([E.T0 - 2, E.T0 - 1, E.T0, E.T0 + 1, 1, 2**32 - 1, 2**32]))
     return E.free(draw(st.sampled_from(IDS)), draw(st.sampled_from(PUBS)), kind, ts, tags,
                   draw(st.sampled_from(["", "c"])))
@@ -110,7 +114,10 @@ def st_op():
         (2, st.tuples(st.just("del"), st.sampled_from(IDS)).map(list)),
         (2, st.tuples(st.just("gc"), st.sampled_from([-5, 0, 1, 2, 100])).map(list)),
         (1, st.just(["reopen"])),
-        (3, st.tuples(st.just("fault"), st.sampled_from(["error", "kill"]), st.integers(0, 12)).map(list)),
+        (3, st.tuples(st.just("fault"), st.sampled_from(["error", "kill"]),
+                      st.one_of(st.integers(0, 12), st.integers(0, 12), st.integers(13, 1300))).map(list)),
+        # the next n operations are queued behind each other before the writer runs
+        (2, st.tuples(st.just("hold"), st.integers(1, 3)).map(list)),
     )
 
 
@@ -126,6 +133,8 @@ def st_history(draw, max_ops):
                 j += 1
             else:
                 op[1]["id"] = perm[draw(st.integers(0, j - 1)) % len(perm)]
+        elif op[0] == "del" and j and draw(st.integers(0, 3)) != 0:
+            op[1] = perm[draw(st.integers(max(0, j - 3), j - 1)) % len(perm)]  # mostly something added recently
     return ops
 
 
@@ -188,9 +197,9 @@ class Coherence(Sub):
                 paths.append({"since": rec["created_at"] - 1, "until": rec["created_at"] + 1})
             elif rec["created_at"] == 1:
                 paths.append({"until": 2})
-            for t in rec["tags"]:
-                if indexable(t) and len(t[0]) == 1 and isinstance(t[1], str):
-                    paths.append({"#" + t[0]: [t[1]]})
+            tagged = [t for t in rec["tags"] if indexable(t) and len(t[0]) == 1 and isinstance(t[1], str)]
+            for t in (tagged if len(tagged) <= 12 else tagged[:8] + tagged[-4:]):
+                paths.append({"#" + t[0]: [t[1]]})
             for f in paths:
                 got = await rig.query([dict(f, limit=1000)])
                 ids = [g["id"] for g in got]
@@ -220,10 +229,16 @@ class Coherence(Sub):
         await rig.open()
         try:
             fault = None
+            hold = 0
+            before = None
             for step, op in enumerate(case):
-                before = await rig.dump()
+                if before is None:
+                    before = await rig.dump()
                 if op[0] == "fault":
                     fault = (op[1], op[2])
+                    continue
+                if op[0] == "hold":
+                    hold = op[1]
                     continue
                 if op[0] == "add":
                     ev = op[1]
@@ -244,6 +259,11 @@ class Coherence(Sub):
                     rig = H.Rig("kv", validators=[], clock=clock, path=rig.path)
                     await rig.open()
                     labels.add("reopen")
+                if hold and op[0] in ("add", "del") and step + 1 < len(case):
+                    hold -= 1
+                    labels.add("queued-behind")
+                    continue
+                hold = 0
                 # apply queued writes, possibly with a fault
                 if fault and rig.pending_writes():
                     kind, k = fault
@@ -283,6 +303,7 @@ class Coherence(Sub):
                         for o in after.values():
                             if tv & {(t[0], t[1]) for t in o["tags"] if indexable(t) and isinstance(t[1], str)}:
                                 nontrivial = True
+                before = None
                 await self._check(rig, ever, step, viol)
                 if viol:
                     break
